@@ -146,14 +146,18 @@ pub fn bump_shared(cx: &mut Ctx, caps: &[u64], ops: &[Vec<u64>]) {
     let c = |i: usize| (caps.get(i).copied().unwrap_or(3).min(64) as usize).max(1);
     let r = guarded(|| -> Option<String> {
         let a = BumpAllocator::new(c(0) + c(1) * 8 + c(2) * 8 + c(3) * 24 + 96).ok()?;
-        let _pad0 = a.alloc::<u8>().ok()?;
-        let mut v0: BumpVec<u8> = BumpVec::new_in(&a, c(0)).ok()?;
-        let _pad1 = a.alloc_bytes(1, 1).ok()?;
+        // a vector of byte-aligned elements directly behind one of 8-aligned elements, single bytes in between: every
+        // block must start where the previous one ends (plus padding), never inside it
+        let pad0 = a.alloc::<u8>().ok()?; unsafe { pad0.as_ptr().write(0xAA); }
+        // can_allocate answers what the next allocation will do
+        if !a.can_allocate(c(1) * 8, 8) || a.can_allocate(a.capacity() + 1, 1) || a.can_allocate(1, 3) { return Some("can_allocate() disagrees with what alloc_bytes() does".into()); }
         let mut v1: BumpVec<El> = BumpVec::new_in(&a, c(1)).ok()?;
-        let _pad2 = a.alloc_slice::<u8>(3).ok()?;
-        let mut v2: BumpVec<u64> = BumpVec::new_in(&a, c(2)).ok()?;
-        let _pad3 = a.alloc::<u8>().ok()?;
+        let mut v0: BumpVec<u8> = BumpVec::new_in(&a, c(0)).ok()?;
+        let pad1 = a.alloc_bytes(1, 1).ok()?; unsafe { pad1.as_ptr().write(0xAA); }
         let mut v3: BumpVec<Wide> = BumpVec::new_in(&a, c(3)).ok()?;
+        let pad2 = a.alloc_slice::<u8>(3).ok()?; unsafe { (pad2.as_ptr() as *mut u8).write_bytes(0xAA, 3); }
+        let mut v2: BumpVec<u64> = BumpVec::new_in(&a, c(2)).ok()?;
+        let pads_ok = || unsafe { *pad0.as_ptr() == 0xAA && *pad1.as_ptr() == 0xAA && std::slice::from_raw_parts(pad2.as_ptr() as *const u8, 3) == [0xAA; 3] };
         if a.remaining_bytes() > a.capacity() || a.allocated_bytes() as usize > a.capacity() { return Some("allocator accounting exceeds its capacity".into()); }
         let mut s: [Vec<u64>; 4] = [vec![], vec![], vec![], vec![]];
         let mut next: u64 = 0;
@@ -174,6 +178,7 @@ pub fn bump_shared(cx: &mut Ctx, caps: &[u64], ops: &[Vec<u64>]) {
             let got: [Vec<u64>; 4] = [v0.as_slice().iter().map(|x| x.id()).collect(), v1.as_slice().iter().map(|x| x.id()).collect(), v2.as_slice().iter().map(|x| x.id()).collect(), v3.as_slice().iter().map(|x| x.id()).collect()];
             for k in 0..4 { if got[k] != s[k] { bad = Some(format!("after op {:?}: vector {} holds {:?}, a Vec holds {:?}", o, k, got[k], s[k])); } }
             if bad.is_none() && (v0.len() != s[0].len() || v1.len() != s[1].len() || v2.len() != s[2].len() || v3.len() != s[3].len() || v1.capacity() != c(1)) { bad = Some(format!("after op {:?}: len() / capacity() disagree with the model", o)); }
+            if bad.is_none() && !pads_ok() { bad = Some(format!("after op {:?}: a byte allocated between the vectors was overwritten", o)); }
             if bad.is_none() { bad = live_mismatch(s[1].iter(), next); }
             if bad.is_some() { break; }
         }
